@@ -614,6 +614,12 @@ Proof.
   unfold opt_hid_eq in Hab. destruct (f a), (g b); try contradiction; [exact Hab|exact IH].
 Qed.
 
+Lemma as_method_wrap i w c1 c2 t : as_method (Wrap i w c1) t = as_method (Wrap i w c2) t.
+Proof. destruct w; reflexivity. Qed.
+
+Lemma as_method_some_hid e t v : as_method e t = Some v -> hid_eq v v.
+Proof. intros _. apply hid_eq_refl. Qed.
+
 Theorem hid_eq_as e1 e2 t :
   hid_eq e1 e2 ->
   match as_ e1 t, as_ e2 t with
@@ -624,18 +630,19 @@ Theorem hid_eq_as e1 e2 t :
 Proof.
   intro H. change (opt_hid_eq (as_ e1 t) (as_ e2 t)).
   induction H using hid_eq_ind'; cbn [as_].
-  - destruct (assignable _ t); [apply HLeaf|exact I].
+  - cbn [as_method]. destruct (assignable _ t); [apply HLeaf|exact I].
   - rewrite (hid_eq_assignable _ _ t (HWrap i w _ _ H)).
-    destruct (assignable _ t); [now apply HWrap|assumption].
-  - rewrite (hid_eq_assignable _ _ t (HSecond i _ _ s1 s2 H)).
+    destruct (assignable _ t); [now apply HWrap|].
+    rewrite (as_method_wrap i w c1 c2 t). destruct (as_method _ _) as [v|]; [apply hid_eq_refl|assumption].
+  - cbn [as_method]. rewrite (hid_eq_assignable _ _ t (HSecond i _ _ s1 s2 H)).
     destruct (assignable _ t); [now apply HSecond|assumption].
-  - rewrite (hid_eq_assignable _ _ t (HBarrier i m h1 h2)).
+  - cbn [as_method]. rewrite (hid_eq_assignable _ _ t (HBarrier i m h1 h2)).
     destruct (assignable _ t); [apply HBarrier|exact I].
-  - rewrite (hid_eq_assignable _ _ t (HMulti i k _ _ H)).
+  - cbn [as_method]. rewrite (hid_eq_assignable _ _ t (HMulti i k _ _ H)).
     destruct (assignable _ t); [now apply HMulti|]. now apply first_some_hid.
-  - rewrite (hid_eq_assignable _ _ t (HOLeaf i m d _ _ H)).
+  - cbn [as_method]. rewrite (hid_eq_assignable _ _ t (HOLeaf i m d _ _ H)).
     destruct (assignable _ t); [now apply HOLeaf|]. now apply first_some_hid.
-  - rewrite (hid_eq_assignable _ _ t (HOWrap i p d mt _ _ H)).
+  - cbn [as_method]. rewrite (hid_eq_assignable _ _ t (HOWrap i p d mt _ _ H)).
     destruct (assignable _ t); [now apply HOWrap|assumption].
 Qed.
 
@@ -649,18 +656,20 @@ Theorem hid_eq_std_as e1 e2 t :
 Proof.
   intro H. change (opt_hid_eq (std_as e1 t) (std_as e2 t)).
   induction H using hid_eq_ind'; cbn [std_as].
-  - destruct (assignable _ t); [apply HLeaf|exact I].
+  - cbn [as_method]. destruct (assignable _ t); [apply HLeaf|exact I].
   - rewrite (hid_eq_assignable _ _ t (HWrap i w _ _ H)), (hid_eq_has_unwrap _ _ (HWrap i w _ _ H)).
-    destruct (assignable _ t); [now apply HWrap|]. destruct (has_unwrap _); [assumption|exact I].
-  - rewrite (hid_eq_assignable _ _ t (HSecond i _ _ s1 s2 H)).
+    destruct (assignable _ t); [now apply HWrap|].
+    rewrite (as_method_wrap i w c1 c2 t). destruct (as_method _ _) as [v|]; [apply hid_eq_refl|].
+    destruct (has_unwrap _); [assumption|exact I].
+  - cbn [as_method]. rewrite (hid_eq_assignable _ _ t (HSecond i _ _ s1 s2 H)).
     destruct (assignable _ t); [now apply HSecond|assumption].
-  - rewrite (hid_eq_assignable _ _ t (HBarrier i m h1 h2)).
+  - cbn [as_method]. rewrite (hid_eq_assignable _ _ t (HBarrier i m h1 h2)).
     destruct (assignable _ t); [apply HBarrier|exact I].
-  - rewrite (hid_eq_assignable _ _ t (HMulti i k _ _ H)).
+  - cbn [as_method]. rewrite (hid_eq_assignable _ _ t (HMulti i k _ _ H)).
     destruct (assignable _ t); [now apply HMulti|]. now apply first_some_hid.
-  - rewrite (hid_eq_assignable _ _ t (HOLeaf i m d _ _ H)).
+  - cbn [as_method]. rewrite (hid_eq_assignable _ _ t (HOLeaf i m d _ _ H)).
     destruct (assignable _ t); [now apply HOLeaf|]. now apply first_some_hid.
-  - rewrite (hid_eq_assignable _ _ t (HOWrap i p d mt _ _ H)).
+  - cbn [as_method]. rewrite (hid_eq_assignable _ _ t (HOWrap i p d mt _ _ H)).
     destruct (assignable _ t); [now apply HOWrap|assumption].
 Qed.
 
